@@ -64,8 +64,10 @@ def run_awgn(item, tl, mutate=None):
     if mutate:
         mutate(ch)
 
+    shape = tuple(item.get("shape") or (n,))
+
     def run(ctx):
-        x = fresh_reals("x", (n,), dtype)
+        x = fresh_reals("x", shape, dtype)
         if mode == "power" and val == "sym":
             ch.avg_noise_power = from_arr([S.topoly(P)], torch.float32, ())
         y = ch(x)
@@ -143,9 +145,10 @@ def with_draws(draws, fn):
 
 def real_x(item, w):
     n, cplx = item["n"], item["complex"]
+    shape = tuple(item.get("shape") or (n,))
     if cplx:
-        return torch.complex(torch.tensor([w[f"x{i}r"] for i in range(n)], dtype=torch.float64), torch.tensor([w[f"x{i}i"] for i in range(n)], dtype=torch.float64))
-    return torch.tensor([w[f"x{i}"] for i in range(n)], dtype=torch.float64)
+        return torch.complex(torch.tensor([w[f"x{i}r"] for i in range(n)], dtype=torch.float64), torch.tensor([w[f"x{i}i"] for i in range(n)], dtype=torch.float64)).reshape(shape)
+    return torch.tensor([w[f"x{i}"] for i in range(n)], dtype=torch.float64).reshape(shape)
 
 
 def replay_awgn(item, w):
@@ -161,7 +164,7 @@ def replay_awgn(item, w):
             ch = AWGNChannel(avg_noise_power=p)
             target = p
         y = with_draws(w["draws"], lambda: ch(x))
-        d = y - x
+        d = (y - x).reshape(-1)
         z = w["draws"]
         bad = False
         if cplx:
@@ -372,6 +375,15 @@ def all_items():
             it = dict(type="laplacian", n=2, complex=cplx, mode=mode, value=v)
             it["config"] = f"Laplacian {mode}={v} n=2 {'complex' if cplx else 'real'}"
             items.append(it)
+    # batched / nested layouts (the noise power of the SNR mode refers to the whole tensor)
+    for shape in ((2, 2), (1, 4), (2, 1, 2)):
+        for cplx in (False, True):
+            for mode, v in (("power", 0.5), ("snr", 10.0)):
+                if TIER == "quick" and (cplx, mode) not in ((False, "snr"), (True, "power")):
+                    continue
+                it = dict(type="awgn", n=4, complex=cplx, mode=mode, value=v, shape=list(shape))
+                it["config"] = f"AWGN {mode}={v} shape={shape} {'complex' if cplx else 'real'}"
+                items.append(it)
     items.append(dict(type="tools", n=2, config="SNR utilities and metric n=2"))
     items.append(dict(selftest=True, config="selftest"))
     return items
